@@ -34,37 +34,28 @@ Print Assumptions protected_never_change_interleaved.
 
 (* --- a successful call: the request addresses an instance (by index in 1.x, by current value in 2.0), the object
        afterwards holds exactly the requested value there / lacks exactly that instance, everything else of the object
-       and every other object is as before.
-       The full statement is FALSE on the current tree (known finding C15-empty-name-delete): *)
-Definition success_exact_statement : Prop := ExactProofs.success_exact_statement.
-
-(* DeleteAttribute under KMIP 2.0 whose current attribute is a Name with the empty text succeeds although the object has
-   no such name and removes ALL its names (`if attribute_value:` on the unwrapped text) *)
-Theorem success_exact_refuted : ~ success_exact_statement.
-Proof. exact step_success_exact_refuted. Qed.
-Print Assumptions success_exact_refuted.
-
-Theorem success_exact_refuted_witness :
-  step (2, 0) "alice" [wit_key] (Some 1) wit_req = ([mset FNames [] wit_key], Success) /\
-  addressed (2, 0) wit_key wit_req = None.
-Proof. exact empty_name_delete_witness. Qed.
-Print Assumptions success_exact_refuted_witness.
-
-(* ... and holds for every other request: the extra hypothesis excludes exactly that input class *)
-Theorem success_exact_partial : forall v user s uid r,
-  deletes_empty_name v r = false ->
+       and every other object is as before *)
+Theorem success_exact : forall v user s uid r,
   snd (step v user s uid r) = Success ->
   exists u o o' ta,
     uid = Some u /\ find_obj u s = Some o /\ allowed user o = true /\
     addressed v o r = Some ta /\ meets ta o o' /\
     only_object_changed u o o' s (fst (step v user s uid r)).
-Proof. exact step_success_exact_partial. Qed.
-Print Assumptions success_exact_partial.
+Proof. exact step_success_exact. Qed.
+Print Assumptions success_exact.
+
+(* regression for the fixed finding C15-empty-name-delete: the empty name text addresses an instance like any other *)
+Theorem empty_name_delete_regression :
+  step (2, 0) "alice" [wit_key] (Some 1) wit_req = ([wit_key], Failed RItemNotFound) /\
+  step (2, 0) "alice" [mset FNames [VText "a"; VText ""; VText "b"] wit_key] (Some 1) wit_req
+  = ([mset FNames [VText "a"; VText "b"] wit_key], Success).
+Proof. split; [exact empty_name_delete_refused | exact empty_name_delete_exact]. Qed.
+Print Assumptions empty_name_delete_regression.
 
 (* --- ... which GetAttributes then reflects: under any protocol version the number of instances reported for the
        addressed attribute follows the change (same / one fewer / none), and the addressed position holds the value *)
-Theorem getattributes_reflects_partial : forall v v' user s uid r,
-  ver_ge v' (1, 0) = true -> deletes_empty_name v r = false ->
+Theorem getattributes_reflects : forall v v' user s uid r,
+  ver_ge v' (1, 0) = true ->
   snd (step v user s uid r) = Success ->
   exists u o o' ta, uid = Some u /\ find_obj u s = Some o /\ addressed v o r = Some ta /\ meets ta o o' /\
     (stored_type (o_type o) = true ->
@@ -78,7 +69,7 @@ Theorem getattributes_reflects_partial : forall v v' user s uid r,
      | (TSensitive, _) => True
      end).
 Proof. exact GetAttrProofs.getattributes_reflects. Qed.
-Print Assumptions getattributes_reflects_partial.
+Print Assumptions getattributes_reflects.
 
 (* --- an unsuccessful call changes nothing *)
 Theorem failure_frame : forall v user s uid r e,
@@ -108,20 +99,19 @@ Theorem index_semantics : forall v user s u o n idx,
 Proof. exact HistoryProofs.index_semantics. Qed.
 Print Assumptions index_semantics.
 
-Theorem current_value_semantics_partial : forall v user s u o n c,
+Theorem current_value_semantics : forall v user s u o n c,
   is_v2 v = true -> find_obj u s = Some o ->
-  deletes_empty_name v (RDelete (mkDel None None (Some (Some n, c)) None)) = false ->
   snd (step v user s (Some u) (RDelete (mkDel None None (Some (Some n, c)) None))) = Success ->
   exists f i o', mfield_of_name n = Some f /\ first_index c (mget f o) = Some i /\
     nth_error (mget f o) i = Some c /\ (forall j x, (j < i)%nat -> nth_error (mget f o) j = Some x -> x <> c) /\
     find_obj u (fst (step v user s (Some u) (RDelete (mkDel None None (Some (Some n, c)) None)))) = Some o' /\
     (forall j, nth_error (mget f o') j = if (j <? i)%nat then nth_error (mget f o) j else nth_error (mget f o) (S j)).
 Proof. exact HistoryProofs.current_value_semantics. Qed.
-Print Assumptions current_value_semantics_partial.
+Print Assumptions current_value_semantics.
 
 (* a name can (now) be deleted by its current value: exactly the first equal name goes, everything else stays *)
 Theorem name_deleted_by_current_value : forall v user s u o t,
-  is_v2 v = true -> find_obj u s = Some o -> t <> "" ->
+  is_v2 v = true -> find_obj u s = Some o ->
   snd (step v user s (Some u) (RDelete (mkDel None None (Some (Some "Name", VText t)) None))) = Success ->
   exists i o', first_index (VText t) (o_names o) = Some i /\ nth_error (o_names o) i = Some (VText t) /\
     (forall j x, (j < i)%nat -> nth_error (o_names o) j = Some x -> x <> VText t) /\
